@@ -601,6 +601,9 @@ pub fn meta_for(property: &str) -> CheckMeta {
         "C01" => "plan = f(seed): swarm config x app scripts x datagram fault plan; non-trivial = at least one fault fired, stream bytes were read after the first fault and at least one stream reached clean EOF; distinct = distinct hash of the (endpoint, tx/rx, space) event order plus per-datagram fates",
         "C02" => "plan = f(seed) from three families (finite faults incl. blackholes / permanent blackhole / all-blocking configurations); non-trivial = faults fired and (finite: work completed after faults; blackhole: a connection existed when the blackhole started; block: a *_BLOCKED frame was sent); distinct = event-order hash",
         "C03" => "plan = f(seed): small windows / stream limits, resets, stop_sending, loss; non-trivial = the sender was actually limited (a *_BLOCKED frame was sent or a RESET_STREAM was sent); distinct = event-order hash",
+        "C06" => "plan = f(seed): family c06.forge injects only additive faults (bit-flipped / truncated / extended / spliced copies IN ADDITION to the genuine datagram, replays incl. from a third address, duplicates, unattributable and spoofed garbage) so every connection must survive and complete; family c06.mixed adds destructive faults (oracle 5 off); non-trivial = a non-genuine datagram was delivered to an endpoint and a stream completed; distinct = event-order hash",
+        "C08" => "plan = f(seed): loss incl. ACK-only blackouts, reordering, duplication, delay; non-trivial = a fault fired and an ACK with gaps was sent or a packet was declared lost; distinct = event-order hash",
+        "C12" => "plan = f(seed): send/finish/reset/stop_sending/close in all orders, hard application close, loss up to 30 %; non-trivial = RESET_STREAM/STOP_SENDING/CONNECTION_CLOSE was sent and a fault fired or a packet was lost; distinct = event-order hash",
         _ => "plan = f(seed); non-trivial = fault fired and progress; distinct = event-order hash",
     };
     CheckMeta { level: "exploration", rule, components, assumptions }
